@@ -360,3 +360,23 @@ Print Assumptions C12_c0_integral_is_iterated_riemann.
 Theorem C12_separable_iterated_integral : forall fs a b vs, FunGenzSep.sep_ok fs a b vs ->
   FunPolyIter.is_iterated_riemann_integral (FunGenzSep.prod_fun fs) a b (FunGenzSep.prodR vs).
 Proof. exact FunGenzSep.sep_iter. Qed.
+
+(* ------------------------------------------------------------------ arguments are values *)
+(* The results (and the dictionary after every operation) of a history are a function of the numerical VALUES of the arguments:
+   two histories whose points are pointwise numerically equal rationals (1 vs 2/2, 0 vs -0, whatever container or object carries
+   them) are indistinguishable, for every eval, vectorised eval, variant and start state. Object identity, container type and
+   number representation do not exist in the model, so any dependence of the implementation on them (an argument array modified
+   in place, a returned array aliasing the cache) shows up as a difference to the model / to the same computation on fresh copies. *)
+From SG Require Proofs.FunCacheValues.
+Theorem C12_history_is_function_of_values : forall (eval : point -> value) (olen : nat) evec checks vr s ops ops',
+  Forall2 FunCacheValues.same_arg ops ops' ->
+  vrun eval olen evec checks vr s (map FunCacheValues.canon ops) = vrun eval olen evec checks vr s (map FunCacheValues.canon ops').
+Proof. exact FunCacheValues.history_is_function_of_values. Qed.
+Print Assumptions C12_history_is_function_of_values.
+Example C12_nonvacuous_values :
+  FunCacheValues.same_arg (FunCacheValues.RawBatch [[1#1; 0#1]; [1#2; 3#4]]) (FunCacheValues.RawBatch [[2#2; (-0)#5]; [2#4; 6#8]]) /\
+  FunCacheValues.canon (FunCacheValues.RawBatch [[1#1; 0#1]; [1#2; 3#4]]) = FunCacheValues.canon (FunCacheValues.RawBatch [[2#2; (-0)#5]; [2#4; 6#8]]).
+Proof.
+  split; [|apply FunCacheValues.canon_eq];
+    (cbn [FunCacheValues.same_arg]; repeat constructor; reflexivity).
+Qed.
